@@ -636,3 +636,32 @@ func rFormatData(c *Ctx, plugins ...string) {
 		}
 	}
 }
+
+// rUnusedTypeString — TypesMap.TypeString registers an import for the package of every named type it spells. A type string that
+// is computed on an accepted path but never reaches the emitted text leaves that import without a use: for a type of a package
+// nothing else in derived.gen.go mentions, the file does not compile ("imported and not used").
+func rUnusedTypeString(c *Ctx, plugins ...string) {
+	for _, p := range plugins {
+		seen := map[token.Pos]bool{}
+		n := 0
+		for _, r := range c.R.Runs(p) {
+			if r.Outcome != "accepted" {
+				continue
+			}
+			n++
+			for _, pos := range r.UnusedTypeStrings {
+				if seen[pos] {
+					continue
+				}
+				seen[pos] = true
+				fn := c.Repo.funcAt(pos)
+				c.Rep.fail(Finding{Rule: "R3", Key: "R3|" + p + "|" + fn + "|type-string-unused", Where: []string{c.Repo.pos(pos)}, Plugin: p, Script: r.Script,
+					Msg:    p + ": TypeString is called for a type whose text does not reach the emitted code on this path: the call imports the type's package as a side effect, so for a type from a package that derived.gen.go does not otherwise mention the file has an unused import and does not compile",
+					Detail: "abstract path: " + r.describe() + "\nresidual:\n" + r.excerpt(30)})
+			}
+		}
+		if len(seen) == 0 && n > 0 {
+			c.Rep.pass("R3")
+		}
+	}
+}
